@@ -591,7 +591,7 @@ def codecDecoder (cfg : Cfg) (hrecs : RecsAcct cfg) (flex : Bool) (t : Ty) : Dec
 
 /-- the decoder configuration regenerated from the current source tree uses the built-in record-set reader (no
 `Cfg.recs` hook), so the accounting premise holds for it -/
-theorem decoderCfg_recsAcct : RecsAcct Gen.decoderCfg := recsAcct_of_none rfl
+theorem decoderCfg_recsAcct : RecsAcct Gen.decoderCfg := recsAcct_none _ rfl
 
 /-- every response schema, the decoder configuration of the current source tree, every cut position: no message -/
 theorem readResponse_cut_is_error_structural (flex : Bool) (t : Ty) (frame : Bytes)
